@@ -1,0 +1,847 @@
+//! Verification facade (cargo feature `verif`, off by default).
+//!
+//! This module only *forwards* to the crate's real, `pub(crate)` functionality and *observes*
+//! state. It must never re-implement or replace production logic: the external verification
+//! harness relies on every call here reaching the same code a running sequencer executes.
+
+use std::{
+    collections::HashMap,
+    sync::{
+        Arc,
+        OnceLock,
+    },
+};
+
+use astria_core::{
+    crypto::ADDRESS_LENGTH,
+    primitive::v1::{
+        asset,
+        RollupId,
+        TransactionId,
+    },
+    protocol::{
+        genesis::v1::GenesisAppState,
+        transaction::v1::action::ValidatorUpdate,
+    },
+    sequencerblock::v1::block::Deposit,
+    upgrades::v1::Upgrades,
+};
+use bytes::Bytes;
+use cnidarium::{
+    Snapshot,
+    StateDelta,
+    StateRead,
+    StateWrite,
+    Storage,
+    TempStorage,
+};
+use futures::TryStreamExt as _;
+use ibc_types::core::channel::{
+    msgs::{
+        MsgAcknowledgement,
+        MsgRecvPacket,
+        MsgTimeout,
+    },
+    ChannelId,
+};
+use penumbra_ibc::component::app_handler::{
+    AppHandlerCheck as _,
+    AppHandlerExecute as _,
+};
+use telemetry::Metrics as _;
+use tendermint::abci;
+
+use crate::{
+    accounts::{
+        StateReadExt as _,
+        StateWriteExt as _,
+    },
+    address::StateReadExt as _,
+    app::{
+        App,
+        StateReadExt as _,
+        StateWriteExt as _,
+    },
+    assets::{
+        StateReadExt as _,
+        StateWriteExt as _,
+    },
+    authority::StateReadExt as _,
+    bridge::{
+        StateReadExt as _,
+        StateWriteExt as _,
+    },
+    checked_transaction::CheckedTransaction,
+    fees::{
+        StateReadExt as _,
+        StateWriteExt as _,
+    },
+    ibc::{
+        ics20_transfer::Ics20Transfer,
+        StateReadExt as _,
+        StateWriteExt as _,
+    },
+    mempool::Mempool,
+    upgrades::{
+        StateReadExt as _,
+        UpgradesHandler,
+    },
+    Metrics,
+};
+
+fn metrics() -> &'static Metrics {
+    static METRICS: OnceLock<&'static Metrics> = OnceLock::new();
+    METRICS.get_or_init(|| Box::leak(Box::new(Metrics::noop_metrics(&()).unwrap())))
+}
+
+fn err<E: std::fmt::Display>(error: E) -> String {
+    format!("{error:#}")
+}
+
+/// Renders an error including its chain of sources.
+fn err_chain<E: std::error::Error + Send + Sync + 'static>(error: E) -> String {
+    format!("{:#}", astria_eyre::eyre::Report::new(error))
+}
+
+/// The state delta type transactions are staged in before being applied to the app's state.
+pub type StateTx = StateDelta<Arc<StateDelta<Snapshot>>>;
+
+/// The outcome of stepping a single transaction through `App::execute_transaction`.
+#[derive(Debug, Clone)]
+pub enum TxOutcome {
+    /// `CheckedTransaction::new` rejected the bytes against the current state.
+    ConstructionFailed(String),
+    /// Executed successfully; its state changes were applied.
+    Executed(Vec<abci::Event>),
+    /// Execution failed with an error that makes a proposal containing it invalid.
+    FailedFatal(String),
+    /// Execution failed non-fatally (the transaction may be included in a block as failed).
+    FailedNonFatal(String),
+}
+
+/// What `App::end_block` hands back.
+#[derive(Debug, Clone)]
+pub struct EndBlock {
+    pub validator_updates: Vec<tendermint::validator::Update>,
+    pub events: Vec<abci::Event>,
+}
+
+/// One sequencer node: the real `App`, its own temporary storage and its own mempool.
+pub struct Node {
+    app: App,
+    storage: TempStorage,
+    mempool: Mempool,
+    upgrades: Upgrades,
+    parked_max_tx_count: usize,
+}
+
+impl Node {
+    /// Creates a node on fresh temporary storage. `init_chain` has not been called.
+    pub async fn new(upgrades: Upgrades, parked_max_tx_count: usize) -> Self {
+        let storage = TempStorage::new().await.expect("temp storage");
+        let mempool = Mempool::new(metrics(), parked_max_tx_count, 1000);
+        let app = App::new(
+            storage.latest_snapshot(),
+            mempool.clone(),
+            UpgradesHandler::from(upgrades.clone()),
+            crate::app::vote_extension::Handler::new(None),
+            metrics(),
+        )
+        .await
+        .expect("app");
+        Self {
+            app,
+            storage,
+            mempool,
+            upgrades,
+            parked_max_tx_count,
+        }
+    }
+
+    pub fn storage(&self) -> Storage {
+        self.storage.clone()
+    }
+
+    /// Drops the `App` (and the mempool) and builds a new one on the last committed state, as
+    /// happens when a node process is restarted.
+    pub async fn restart(&mut self) {
+        let mempool = Mempool::new(metrics(), self.parked_max_tx_count, 1000);
+        self.app = App::new(
+            self.storage.latest_snapshot(),
+            mempool.clone(),
+            UpgradesHandler::from(self.upgrades.clone()),
+            crate::app::vote_extension::Handler::new(None),
+            metrics(),
+        )
+        .await
+        .expect("app");
+        self.mempool = mempool;
+    }
+
+    // ------------------------------------------------------------------------------------------
+    // ABCI level
+    // ------------------------------------------------------------------------------------------
+
+    /// `App::init_chain` followed by `App::commit`.
+    pub async fn init_chain(
+        &mut self,
+        genesis_state: GenesisAppState,
+        genesis_validators: Vec<ValidatorUpdate>,
+        chain_id: String,
+    ) -> Result<Vec<u8>, String> {
+        let app_hash = self
+            .app
+            .init_chain(
+                self.storage.clone(),
+                genesis_state,
+                genesis_validators,
+                chain_id,
+            )
+            .await
+            .map_err(err)?;
+        self.app.commit(self.storage.clone()).await.map_err(err)?;
+        Ok(app_hash.as_bytes().to_vec())
+    }
+
+    pub async fn prepare_proposal(
+        &mut self,
+        request: abci::request::PrepareProposal,
+    ) -> Result<abci::response::PrepareProposal, String> {
+        self.app
+            .prepare_proposal(request, self.storage.clone())
+            .await
+            .map_err(err)
+    }
+
+    pub async fn process_proposal(
+        &mut self,
+        request: abci::request::ProcessProposal,
+    ) -> Result<(), String> {
+        self.app
+            .process_proposal(request, self.storage.clone())
+            .await
+            .map_err(err)
+    }
+
+    pub async fn extend_vote(
+        &mut self,
+        request: abci::request::ExtendVote,
+    ) -> Result<abci::response::ExtendVote, String> {
+        self.app.extend_vote(request).await.map_err(err)
+    }
+
+    pub async fn verify_vote_extension(
+        &mut self,
+        request: abci::request::VerifyVoteExtension,
+    ) -> Result<abci::response::VerifyVoteExtension, String> {
+        self.app.verify_vote_extension(request).await.map_err(err)
+    }
+
+    pub async fn finalize_block(
+        &mut self,
+        request: abci::request::FinalizeBlock,
+    ) -> Result<abci::response::FinalizeBlock, String> {
+        self.app
+            .finalize_block(request, self.storage.clone())
+            .await
+            .map_err(err)
+    }
+
+    pub async fn commit(&mut self) -> Result<(), String> {
+        self.app
+            .commit(self.storage.clone())
+            .await
+            .map(|_| ())
+            .map_err(err)
+    }
+
+    /// Sends the bytes through the real ABCI mempool service (`CheckTx`).
+    pub async fn check_tx(&mut self, tx: Bytes, recheck: bool) -> abci::response::CheckTx {
+        use tendermint::v0_38::abci::{
+            MempoolRequest,
+            MempoolResponse,
+        };
+        use tower::Service as _;
+        let mut service =
+            crate::service::Mempool::new(self.storage.clone(), self.mempool.clone(), metrics());
+        let kind = if recheck {
+            abci::request::CheckTxKind::Recheck
+        } else {
+            abci::request::CheckTxKind::New
+        };
+        let request = MempoolRequest::CheckTx(abci::request::CheckTx {
+            tx,
+            kind,
+        });
+        match service.call(request).await.expect("mempool service") {
+            MempoolResponse::CheckTx(response) => response,
+        }
+    }
+
+    // ------------------------------------------------------------------------------------------
+    // transaction level (inside one scratch block)
+    // ------------------------------------------------------------------------------------------
+
+    /// Resets the app to the last committed state and runs `App::pre_execute_transactions`.
+    pub async fn begin_block(
+        &mut self,
+        height: tendermint::block::Height,
+        time: tendermint::Time,
+        proposer_address: tendermint::account::Id,
+    ) -> Result<(), String> {
+        self.app
+            .verif_begin_block(&self.storage.clone(), height, time, proposer_address)
+            .await
+            .map(|_| ())
+            .map_err(err)
+    }
+
+    /// Discards everything since the last commit (`App::update_state_for_new_round`).
+    pub fn abort_block(&mut self) {
+        self.app.verif_reset(&self.storage.clone());
+    }
+
+    /// `CheckedTransaction::new` against the app's current state, then
+    /// `App::execute_transaction`.
+    pub async fn execute_tx(&mut self, tx: Bytes) -> TxOutcome {
+        let checked = match CheckedTransaction::new(tx, self.app.verif_state()).await {
+            Ok(checked) => Arc::new(checked),
+            Err(error) => return TxOutcome::ConstructionFailed(err_chain(error)),
+        };
+        self.app.verif_execute_transaction(checked).await
+    }
+
+    /// `App::end_block` with the fee recipient read from state, as
+    /// `App::post_execute_transactions` does.
+    pub async fn end_block(&mut self, height: u64) -> Result<EndBlock, String> {
+        self.app.verif_end_block(height).await.map_err(err)
+    }
+
+    // ------------------------------------------------------------------------------------------
+    // state access
+    // ------------------------------------------------------------------------------------------
+
+    /// The app's current (uncommitted) state.
+    pub fn state(&self) -> &StateDelta<Snapshot> {
+        self.app.verif_state()
+    }
+
+    /// Starts a state transaction on top of the app's current state.
+    pub fn begin_state_tx(&mut self) -> StateTx {
+        self.app.verif_new_state_delta()
+    }
+
+    /// Applies a state transaction started with `begin_state_tx`; returns its events.
+    pub fn apply_state_tx(&mut self, state_tx: StateTx) -> Vec<abci::Event> {
+        self.app.verif_apply(state_tx)
+    }
+
+    /// Commits whatever is in the app's state outside of block execution (used to seed state).
+    pub async fn commit_seeded_state(&mut self) -> Result<(), String> {
+        self.app
+            .verif_prepare_commit(self.storage.clone())
+            .await
+            .map_err(err)?;
+        self.commit().await
+    }
+
+    pub fn app_hash(&self) -> Vec<u8> {
+        self.app.verif_app_hash()
+    }
+
+    pub async fn mempool_len(&self) -> usize {
+        self.mempool.len().await
+    }
+
+    /// The transactions `prepare_proposal` would iterate over, in that order.
+    pub async fn mempool_builder_queue(&self) -> Vec<(TransactionId, [u8; ADDRESS_LENGTH], u32)> {
+        use crate::accounts::AddressBytes as _;
+        self.mempool
+            .builder_queue()
+            .await
+            .into_iter()
+            .map(|tx| (*tx.id(), *tx.address_bytes(), tx.nonce()))
+            .collect()
+    }
+
+    /// `Mempool::transaction_status` rendered as text (`pending`, `parked`, `removed: <reason>`).
+    pub async fn mempool_transaction_status(&self, tx_id: &TransactionId) -> Option<String> {
+        use crate::mempool::TransactionStatus;
+        self.mempool
+            .transaction_status(tx_id)
+            .await
+            .map(|status| match status {
+                TransactionStatus::Pending => "pending".to_string(),
+                TransactionStatus::Parked => "parked".to_string(),
+                TransactionStatus::Removed(reason) => format!("removed: {reason}"),
+            })
+    }
+
+    /// Serves `GetSequencerBlock` through the real gRPC service implementation.
+    pub async fn grpc_get_sequencer_block(
+        &self,
+        height: u64,
+    ) -> Result<astria_core::generated::astria::sequencerblock::v1::SequencerBlock, String> {
+        use astria_core::generated::astria::sequencerblock::v1::{
+            sequencer_service_server::SequencerService as _,
+            GetSequencerBlockRequest,
+        };
+        let server = Arc::new(crate::grpc::sequencer::SequencerServer::new(
+            self.storage.clone(),
+            self.mempool.clone(),
+            self.upgrades.clone(),
+        ));
+        server
+            .get_sequencer_block(tonic::Request::new(GetSequencerBlockRequest {
+                height,
+            }))
+            .await
+            .map(tonic::Response::into_inner)
+            .map_err(|status| status.to_string())
+    }
+
+    /// Serves `GetFilteredSequencerBlock` through the real gRPC service implementation.
+    pub async fn grpc_get_filtered_sequencer_block(
+        &self,
+        height: u64,
+        rollup_ids: Vec<RollupId>,
+    ) -> Result<astria_core::generated::astria::sequencerblock::v1::FilteredSequencerBlock, String>
+    {
+        use astria_core::generated::astria::sequencerblock::v1::{
+            sequencer_service_server::SequencerService as _,
+            GetFilteredSequencerBlockRequest,
+        };
+        let server = Arc::new(crate::grpc::sequencer::SequencerServer::new(
+            self.storage.clone(),
+            self.mempool.clone(),
+            self.upgrades.clone(),
+        ));
+        server
+            .get_filtered_sequencer_block(tonic::Request::new(GetFilteredSequencerBlockRequest {
+                height,
+                rollup_ids: rollup_ids.into_iter().map(RollupId::into_raw).collect(),
+            }))
+            .await
+            .map(tonic::Response::into_inner)
+            .map_err(|status| status.to_string())
+    }
+}
+
+/// Constructs a `CheckedTransaction` against `state` and reports the action group and rollup
+/// data sizes the app uses for ordering and block-size accounting.
+pub async fn inspect_tx<S: StateRead>(
+    state: &S,
+    tx: Bytes,
+) -> Result<(TransactionId, String, usize), String> {
+    let checked = CheckedTransaction::new(tx, state).await.map_err(err_chain)?;
+    let rollup_data_len = checked.rollup_data_bytes().map(|(_, data)| data.len()).sum();
+    Ok((
+        *checked.id(),
+        format!("{:?}", checked.group()),
+        rollup_data_len,
+    ))
+}
+
+// ----------------------------------------------------------------------------------------------
+// ICS-20 application handler (what penumbra's IBC implementation calls after proof verification)
+// ----------------------------------------------------------------------------------------------
+
+/// Sets the IBC context the `IbcRelay` action sets before handing over to the IBC handlers.
+pub fn put_ibc_context<S: StateWrite>(mut state: S, tx_id: TransactionId, position_in_tx: u64) {
+    state.ephemeral_put_ibc_context(tx_id, position_in_tx);
+}
+
+/// `Ics20Transfer::recv_packet_check` then `Ics20Transfer::recv_packet_execute`.
+pub async fn ics20_recv_packet<S: StateWrite>(mut state: S, msg: &MsgRecvPacket) -> Result<(), String> {
+    Ics20Transfer::recv_packet_check(&mut state, msg)
+        .await
+        .map_err(err)?;
+    Ics20Transfer::recv_packet_execute(&mut state, msg)
+        .await
+        .map_err(err)
+}
+
+/// `Ics20Transfer::acknowledge_packet_check` then `Ics20Transfer::acknowledge_packet_execute`.
+pub async fn ics20_acknowledge_packet<S: StateWrite>(
+    mut state: S,
+    msg: &MsgAcknowledgement,
+) -> Result<(), String> {
+    Ics20Transfer::acknowledge_packet_check(&mut state, msg)
+        .await
+        .map_err(err)?;
+    Ics20Transfer::acknowledge_packet_execute(&mut state, msg)
+        .await
+        .map_err(err)
+}
+
+/// `Ics20Transfer::timeout_packet_check` then `Ics20Transfer::timeout_packet_execute`.
+pub async fn ics20_timeout_packet<S: StateWrite>(mut state: S, msg: &MsgTimeout) -> Result<(), String> {
+    Ics20Transfer::timeout_packet_check(&mut state, msg)
+        .await
+        .map_err(err)?;
+    Ics20Transfer::timeout_packet_execute(&mut state, msg)
+        .await
+        .map_err(err)
+}
+
+// ----------------------------------------------------------------------------------------------
+// typed state readers: thin forwards to the components' `StateReadExt` traits
+// ----------------------------------------------------------------------------------------------
+
+pub mod read {
+    use super::*;
+
+    pub async fn account_balance<S: StateRead>(
+        state: &S,
+        address: &[u8; ADDRESS_LENGTH],
+        asset: &asset::IbcPrefixed,
+    ) -> Result<u128, String> {
+        state.get_account_balance(address, asset).await.map_err(err)
+    }
+
+    pub async fn account_nonce<S: StateRead>(
+        state: &S,
+        address: &[u8; ADDRESS_LENGTH],
+    ) -> Result<u32, String> {
+        state.get_account_nonce(address).await.map_err(err)
+    }
+
+    pub async fn ibc_channel_balance<S: StateRead>(
+        state: &S,
+        channel: &ChannelId,
+        asset: &asset::IbcPrefixed,
+    ) -> Result<u128, String> {
+        state
+            .get_ibc_channel_balance(channel, asset)
+            .await
+            .map_err(err)
+    }
+
+    pub fn block_fees<S: StateRead>(state: &S) -> HashMap<asset::IbcPrefixed, u128> {
+        state.get_block_fees()
+    }
+
+    pub fn cached_block_deposits<S: StateRead>(state: &S) -> HashMap<RollupId, Vec<Deposit>> {
+        state.get_cached_block_deposits()
+    }
+
+    pub async fn deposits<S: StateRead>(
+        state: &S,
+        block_hash: &[u8; 32],
+        rollup_id: &RollupId,
+    ) -> Result<Vec<Deposit>, String> {
+        state.get_deposits(block_hash, rollup_id).await.map_err(err)
+    }
+
+    #[derive(Debug, Clone, PartialEq, Eq)]
+    pub struct BridgeAccount {
+        pub rollup_id: RollupId,
+        pub asset: asset::IbcPrefixed,
+        pub sudo: Option<[u8; ADDRESS_LENGTH]>,
+        pub withdrawer: Option<[u8; ADDRESS_LENGTH]>,
+        pub disabled: bool,
+    }
+
+    /// `None` if `address` is not a bridge account.
+    pub async fn bridge_account<S: StateRead>(
+        state: &S,
+        address: &[u8; ADDRESS_LENGTH],
+    ) -> Result<Option<BridgeAccount>, String> {
+        let Some(rollup_id) = state
+            .get_bridge_account_rollup_id(address)
+            .await
+            .map_err(err)?
+        else {
+            return Ok(None);
+        };
+        Ok(Some(BridgeAccount {
+            rollup_id,
+            asset: state
+                .get_bridge_account_ibc_asset(address)
+                .await
+                .map_err(err)?,
+            sudo: state
+                .get_bridge_account_sudo_address(address)
+                .await
+                .map_err(err)?,
+            withdrawer: state
+                .get_bridge_account_withdrawer_address(address)
+                .await
+                .map_err(err)?,
+            disabled: state
+                .is_bridge_account_disabled(address)
+                .await
+                .map_err(err)?,
+        }))
+    }
+
+    pub async fn withdrawal_event_block_number<S: StateRead>(
+        state: &S,
+        bridge_address: &[u8; ADDRESS_LENGTH],
+        event_id: &str,
+    ) -> Result<Option<u64>, String> {
+        state
+            .get_withdrawal_event_rollup_block_number(bridge_address, event_id)
+            .await
+            .map_err(err)
+    }
+
+    pub async fn sudo_address<S: StateRead>(state: &S) -> Result<[u8; ADDRESS_LENGTH], String> {
+        state.get_sudo_address().await.map_err(err)
+    }
+
+    pub async fn ibc_sudo_address<S: StateRead>(state: &S) -> Result<[u8; ADDRESS_LENGTH], String> {
+        state.get_ibc_sudo_address().await.map_err(err)
+    }
+
+    pub async fn is_ibc_relayer<S: StateRead>(
+        state: &S,
+        address: &[u8; ADDRESS_LENGTH],
+    ) -> Result<bool, String> {
+        state.is_ibc_relayer(address).await.map_err(err)
+    }
+
+    /// The validators the app stores and uses to verify vote extensions (post-Aspen layout).
+    pub async fn validators<S: StateRead>(state: &S) -> Result<Vec<ValidatorUpdate>, String> {
+        state.get_validators().try_collect().await.map_err(err)
+    }
+
+    /// The validator set in its pre-Aspen storage layout; `Err` once Aspen removed it.
+    pub async fn pre_aspen_validator_set<S: StateRead>(
+        state: &S,
+    ) -> Result<Vec<ValidatorUpdate>, String> {
+        state
+            .pre_aspen_get_validator_set()
+            .await
+            .map(|set| set.updates().cloned().collect())
+            .map_err(err)
+    }
+
+    pub async fn validator_count<S: StateRead>(state: &S) -> Result<u64, String> {
+        state.get_validator_count().await.map_err(err)
+    }
+
+    pub async fn block_validator_updates<S: StateRead>(
+        state: &S,
+    ) -> Result<Vec<ValidatorUpdate>, String> {
+        state
+            .get_block_validator_updates()
+            .await
+            .map(|set| set.updates().cloned().collect())
+            .map_err(err)
+    }
+
+    pub async fn is_allowed_fee_asset<S: StateRead>(
+        state: &S,
+        asset: &asset::IbcPrefixed,
+    ) -> Result<bool, String> {
+        state.is_allowed_fee_asset(asset).await.map_err(err)
+    }
+
+    pub async fn allowed_fee_assets<S: StateRead>(
+        state: &S,
+    ) -> Result<Vec<asset::IbcPrefixed>, String> {
+        state.allowed_fee_assets().try_collect().await.map_err(err)
+    }
+
+    /// `(action name, Some((base, multiplier)) | None if the action is disabled)` for every action.
+    pub async fn fee_table<S: StateRead>(
+        state: &S,
+    ) -> Result<Vec<(&'static str, Option<(u128, u128)>)>, String> {
+        use astria_core::protocol::transaction::v1::action::*;
+        use penumbra_ibc::IbcRelay;
+
+        use crate::fees::FeeHandler;
+        macro_rules! fees {
+            ($($ty:ty),* $(,)?) => {
+                vec![$((
+                    <$ty as FeeHandler>::snake_case_name(),
+                    state
+                        .get_fees::<$ty>()
+                        .await
+                        .map_err(err)?
+                        .map(|fees| (fees.base(), fees.multiplier())),
+                )),*]
+            };
+        }
+        Ok(fees![
+            Transfer,
+            RollupDataSubmission,
+            Ics20Withdrawal,
+            InitBridgeAccount,
+            BridgeLock,
+            BridgeUnlock,
+            BridgeSudoChange,
+            BridgeTransfer,
+            IbcRelay,
+            ValidatorUpdate,
+            FeeAssetChange,
+            FeeChange,
+            IbcRelayerChange,
+            SudoAddressChange,
+            IbcSudoChange,
+            RecoverIbcClient,
+            CurrencyPairsChange,
+            MarketsChange,
+        ])
+    }
+
+    pub async fn block_height<S: StateRead>(state: &S) -> Result<u64, String> {
+        state.get_block_height().await.map_err(err)
+    }
+
+    pub async fn consensus_params<S: StateRead>(
+        state: &S,
+    ) -> Result<Option<tendermint::consensus::Params>, String> {
+        state.get_consensus_params().await.map_err(err)
+    }
+
+    pub async fn base_prefix<S: StateRead>(state: &S) -> Result<String, String> {
+        state.get_base_prefix().await.map_err(err)
+    }
+
+    pub async fn has_ibc_asset<S: StateRead>(
+        state: &S,
+        asset: &asset::IbcPrefixed,
+    ) -> Result<bool, String> {
+        state.has_ibc_asset(asset).await.map_err(err)
+    }
+
+    pub async fn trace_prefixed_asset<S: StateRead>(
+        state: &S,
+        asset: &asset::IbcPrefixed,
+    ) -> Result<Option<asset::TracePrefixed>, String> {
+        state
+            .map_ibc_to_trace_prefixed_asset(asset)
+            .await
+            .map_err(err)
+    }
+
+    /// Whether the named upgrade change has been applied.
+    pub async fn upgrade_change_applied<S: StateRead>(
+        state: &S,
+        upgrade_name: &'static str,
+        change_name: &'static str,
+    ) -> Result<bool, String> {
+        use astria_core::upgrades::v1::{
+            ChangeName,
+            UpgradeName,
+        };
+        let upgrade_name = UpgradeName::new(upgrade_name);
+        let change_name = ChangeName::new(change_name);
+        state
+            .get_upgrade_change_info(&upgrade_name, &change_name)
+            .await
+            .map(|info| info.is_some())
+            .map_err(err)
+    }
+
+    /// Renders a raw stored value with the crate's own `StoredValue` decoder (for diagnostics).
+    pub fn describe_stored_value(bytes: &[u8]) -> String {
+        match crate::storage::StoredValue::deserialize(bytes) {
+            Ok(value) => format!("{value:?}"),
+            Err(_) => format!("<not a StoredValue: {} bytes>", bytes.len()),
+        }
+    }
+}
+
+// ----------------------------------------------------------------------------------------------
+// typed state writers (seeding only): thin forwards to the components' `StateWriteExt` traits
+// ----------------------------------------------------------------------------------------------
+
+pub mod write {
+    use super::*;
+
+    pub fn account_balance<S: StateWrite>(
+        mut state: S,
+        address: &[u8; ADDRESS_LENGTH],
+        asset: &asset::IbcPrefixed,
+        balance: u128,
+    ) -> Result<(), String> {
+        state
+            .put_account_balance(address, asset, balance)
+            .map_err(err)
+    }
+
+    pub fn account_nonce<S: StateWrite>(
+        mut state: S,
+        address: &[u8; ADDRESS_LENGTH],
+        nonce: u32,
+    ) -> Result<(), String> {
+        state.put_account_nonce(address, nonce).map_err(err)
+    }
+
+    pub fn ibc_asset<S: StateWrite>(mut state: S, asset: asset::TracePrefixed) -> Result<(), String> {
+        state.put_ibc_asset(asset).map_err(err)
+    }
+
+    pub fn allowed_fee_asset<S: StateWrite>(
+        mut state: S,
+        asset: &asset::IbcPrefixed,
+    ) -> Result<(), String> {
+        state.put_allowed_fee_asset(asset).map_err(err)
+    }
+
+    pub fn ibc_channel_balance<S: StateWrite>(
+        mut state: S,
+        channel: &ChannelId,
+        asset: &asset::IbcPrefixed,
+        balance: u128,
+    ) -> Result<(), String> {
+        state
+            .put_ibc_channel_balance(channel, asset, balance)
+            .map_err(err)
+    }
+
+    pub fn bridge_account<S: StateWrite>(
+        mut state: S,
+        address: &[u8; ADDRESS_LENGTH],
+        rollup_id: RollupId,
+        asset: asset::IbcPrefixed,
+        sudo: [u8; ADDRESS_LENGTH],
+        withdrawer: [u8; ADDRESS_LENGTH],
+    ) -> Result<(), String> {
+        state
+            .put_bridge_account_rollup_id(address, rollup_id)
+            .map_err(err)?;
+        state
+            .put_bridge_account_ibc_asset(address, asset)
+            .map_err(err)?;
+        state
+            .put_bridge_account_sudo_address(address, sudo)
+            .map_err(err)?;
+        state
+            .put_bridge_account_withdrawer_address(address, withdrawer)
+            .map_err(err)
+    }
+
+    pub fn block_height<S: StateWrite>(mut state: S, height: u64) -> Result<(), String> {
+        state.put_block_height(height).map_err(err)
+    }
+
+    pub fn block_timestamp<S: StateWrite>(mut state: S, time: tendermint::Time) -> Result<(), String> {
+        state.put_block_timestamp(time).map_err(err)
+    }
+
+    pub fn revision_number<S: StateWrite>(mut state: S, revision_number: u64) -> Result<(), String> {
+        state.put_revision_number(revision_number).map_err(err)
+    }
+
+    /// Stores a verified consensus state for an IBC client with the sequencer's host interface.
+    pub async fn verified_consensus_state<S: StateWrite>(
+        mut state: S,
+        height: ibc_types::core::client::Height,
+        client_id: ibc_types::core::client::ClientId,
+        consensus_state: ibc_types::lightclients::tendermint::ConsensusState,
+    ) -> Result<(), String> {
+        use penumbra_ibc::component::ConsensusStateWriteExt as _;
+        state
+            .put_verified_consensus_state::<crate::ibc::host_interface::AstriaHost>(
+                height,
+                client_id,
+                consensus_state,
+            )
+            .await
+            .map_err(err)
+    }
+}
